@@ -368,7 +368,7 @@ fn run_case(text: &str, vm: &mut VM) -> Vec<(Target, String)> {
         }
         let r = catch_unwind(AssertUnwindSafe(|| {
             IP.with(|p| {
-                let mut ictx = lib::InterpreterContext { fn_map: Default::default(), label_map: Default::default(), call_stack: Vec::new() };
+                let mut ictx = lib::InterpreterContext::default();
                 ictx.fn_map.insert("f".into(), 0);
                 ictx.label_map.insert("x".into(), lib::Label::new(lib::LabelType::CODE, 0, 0));
                 let _ = p.parse(0, vm, &mut ictx, text);
